@@ -1,22 +1,77 @@
-"""Per-property configuration of the checks (what is proved, what is ground-evaluated, what is assumed)."""
+"""Per-property configuration of the checks (what is proved, what is ground-evaluated, what is bounded, what is assumed)."""
+
+DEFS_BY_CODE = [
+    "V(s), K(s): 'parse(s) returns no error' / 'returns an AND-OR node' are logical functions of the string: definitions by the code, justified by the purity obligations of C13 (not proved facts)",
+    "Lexable(s), TokLen(s), TokSeq(s): the token sequence of a string is a logical function of the string, defined by the deterministic scanner (same justification)",
+]
 
 PROPS = {
+    "C01": {
+        "level": "proof", "prove": True, "ground": [],
+        "assumptions": DEFS_BY_CODE + [
+            "second-order instantiation: the expansion contracts are proved for an uninterpreted 'covered' predicate m; Satisfies assumes m(t) <=> some allowed node matches t (sound as long as no other clause constrains m; checked by inspection of the contract file)",
+            "the allowed nodes are those in the array after the in-place sort and compaction of sortAndDedup; that they denote the same set as the allowed list is the subject of C07",
+            "matchT includes, besides the documented rule, the code's shortcut 'same exception and canonical strings equal up to letter case'; on canonical spellings the two coincide (foldUnique, ground-evaluated under C09/C12)",
+            "sem, the reference grammar and the matching rule are transcriptions of the property text and are trusted as its meaning",
+        ],
+    },
+    "C02": {
+        "level": "proof", "prove": True, "ground": [],
+        "assumptions": [
+            "strings.EqualFold is reflexive (the only axiom used)",
+            "symmetry / reflexivity of the rule are properties of the spec predicate licMatch / refMatch (symmetric by inspection); they are not mechanised as separate lemmas",
+            "the family table is the abstract constant RangeAt: the theorem holds for whatever table the tree ships",
+        ],
+    },
     "C03": {
-        "level": "proof",
-        "prove": True,
-        "ground": [],
+        "level": "proof", "prove": True, "ground": [],
         "assumptions": [
             "stack exhaustion on pathological nesting and out-of-memory are fatal errors outside any contract (not proved)",
             "partial correctness: termination of the scanner loop and of the recursive descent is not proved",
         ],
     },
+    "C04": {
+        "level": "proof", "prove": True, "ground": [],
+        "assumptions": DEFS_BY_CODE,
+    },
+    "C05": {
+        "level": "proof", "prove": True, "ground": ["noOperatorPrefix", "idsAreIDCH"],
+        "bounded": {"search": "C05", "quick": "6s", "thorough": "120s",
+                    "what": "classification of single lexemes (which character runs are which token, list lookups with -only / -or-later / '+' folding) is not under a functional contract; it is compared with a reference lexer written from the property text on all strings of <= 4 lexemes over the alphabet of the property, loose and tight spacing (BOUNDED, not counted as proved)"},
+        "assumptions": DEFS_BY_CODE + [
+            "token level (proved): parse succeeds on a token sequence iff the reference grammar derives exactly that sequence, and the tree is the grammar's tree",
+            "lexical level (proved): the scanner's buffer/offset relation - no character of the caller's string is dropped or invented by the -or-later rewrite; (bounded): the classification of each lexeme",
+            "regexp FindStringIndex on the two literal class patterns returns the leftmost-longest match (assumed contract)",
+        ],
+    },
+    "C11": {
+        "level": "proof", "prove": True,
+        "ground": ["tableShape", "rangesEntriesListed", "rangesUniquePosition", "rangesOneFamilyShape", "rangesOneVersionPerStep", "rangesAscending", "rangesFamilyComplete"],
+        "assumptions": [
+            "code part: the matching theorem of C02 (X-v1+ matches X-v2 iff same family position and version index(v2) >= version index(v1)), parametric in the table",
+            "table part: ground evaluation on the literal of LicenseRanges(); the natural version order is a transcription (numeric, component-wise, trailing letter)",
+        ],
+    },
+    "C12": {
+        "level": "other", "prove": False,
+        "ground": ["tableShape", "jsonAgreement", "listsDisjoint", "foldUnique", "idsAreIDCH", "noOperatorPrefix"],
+        "bounded": {"search": "C12", "quick": "20s", "thorough": "60s",
+                    "what": "every listed license id is accepted as a one-term expression, every exception id after WITH and nowhere else: exhaustive execution of the real ValidateLicenses over the finite shipped tables (one configuration: the current tree)"},
+        "generator": True,
+        "explanation": "Ground evaluation: the three generated lists equal, in order, the ids derived from cmd/licenses.json and cmd/exceptions.json by the property's rule; they are pairwise disjoint, fold-unique and made of id characters (decided by evaluation on the literals of the current tree on every run). Bounded stand-in, labelled bounded and not counted as proved: the real generator (cmd) is run on the shipped JSON in a scratch copy outside /repo and its output compared byte for byte with the committed files; acceptance of every id is checked by exhaustive execution over the finite tables. The generator code itself (os, encoding/json, file I/O) is outside the verifier's reach.",
+        "assumptions": ["encoding/json decodes the JSON files faithfully", "one configuration only: the JSON files and tables of the current tree"],
+    },
     "C13": {
-        "level": "proof",
-        "prove": True,
-        "ground": [],
+        "level": "proof", "prove": True, "ground": [],
         "assumptions": [
             "meta-argument (stated, not mechanised): an activation that reads only its arguments and immutable data and writes only memory it allocated is deterministic and cannot race with another activation",
             "the Go standard library functions on the whitelist are deterministic, perform no I/O and are safe for concurrent use as documented",
+        ],
+    },
+    "C15": {
+        "level": "proof", "prove": True, "ground": [],
+        "assumptions": [
+            "the three offset-bearing messages are the fmt.Sprintf sites of scan.go; the assertions are on the arguments passed to them (fmt.Sprintf formats %d / %s faithfully)",
         ],
     },
 }
